@@ -39,7 +39,15 @@ let rec structure (p : port) : sport =
     | c :: t when int_of_z c <> 58 -> split (c :: acc) t
     | _ -> (List.rev acc, s) in
   let (path, args) = split [] name in
-  SPort (parse_segs path, args, meta, (match sub with Some l -> Some (List.map structure l) | None -> None))
+  (* a sub-tree name is structured by components: every literal cut behind each of its '/' *)
+  let rec cut acc cur s = match s with
+    | [] -> List.rev (if cur = [] then acc else Lit (List.rev cur) :: acc)
+    | c :: t when int_of_z c = 47 -> cut (Lit (List.rev (c :: cur)) :: acc) [] t
+    | c :: t -> cut acc (c :: cur) t in
+  let comps l = List.concat (List.map (fun sg -> match sg with Lit t -> cut [] [] t | e -> [e]) l) in
+  let segs = parse_segs path in
+  SPort ((if sub = None then segs else comps segs), args, meta,
+         (match sub with Some l -> Some (List.map structure l) | None -> None))
 let names_ok_raw (t : port list) : bool =
   let st = List.map structure t in
   List.map render_port st = t && names_ok st
